@@ -61,6 +61,8 @@ class Contract:
         self.solver = dict(g('solver', {}))
         self.sets_if = dict(g('sets_if', {}))
         self.sets_shape = dict(g('sets_shape', {}))
+        self.yield_havoc = list(g('yield_havoc', []))
+        self.yield_invariant = list(g('yield_invariant', []))
         self.source_file = None
         self.name = cls.__name__
 
